@@ -164,7 +164,21 @@ func history(r *ev.Run, c *ev.Case, hi int, slowCA ...time.Duration) {
 		}
 		ag.Keyring.Add(ak)
 	}
+	if label == "" && rng.Intn(4) == 0 {
+		// a labelled certificate from an earlier generation over a key that the requester ALSO holds as a plain identity of
+		// his own: the certificate is the handler's to replace, the plain key is not
+		for _, key := range []*gen.Key{pool[(hi+3)%len(pool)], user} {
+			old := gen.MakeCert(gen.CertSpec{Key: key, KeyID: "earlier generation", ValidAfter: 1, ValidBefore: ssh.CertTimeInfinity})
+			ag.Keyring.Add(agent.AddedKey{PrivateKey: key.Priv, Certificate: old, Comment: handlerLabel + "-cert"})
+			if key != user {
+				ag.Keyring.Add(agent.AddedKey{PrivateKey: key.Priv, Comment: "my own key"})
+			}
+		}
+	}
 	for b, id := range snapshot(ag) {
+		if strings.Contains(id.Comment, handlerLabel) {
+			continue // carries the handler's label: the handler's own to replace
+		}
 		foreign[b] = id
 	}
 	rig, err := gsrig.NewRig(ag, gc)
